@@ -21,6 +21,7 @@ import (
 	"mellium.im/xmlstream"
 	"mellium.im/xmpp"
 	"mellium.im/xmpp/internal/attr"
+	"mellium.im/xmpp/internal/verifhook"
 	"mellium.im/xmpp/jid"
 	"mellium.im/xmpp/mux"
 	"mellium.im/xmpp/stanza"
@@ -250,6 +251,7 @@ func handlePayload(h *Handler, errResp errorResponder, p dataPayload, e xmlstrea
 
 	// If a call to conn.Read was pending, signal it that it's okay to resume
 	// because there's data now.
+	verifhook.Yield("ibb.data.notify", p.SID)
 	select {
 	case conn.readReady <- struct{}{}:
 	default:
